@@ -300,3 +300,311 @@ def thorough_rand_distr(ctx, rep):
                 return False
             ok, w = all_paths(pf.at(b, k), rejects_nan)
             rep.ob('C13.T1', f, 'probability-nan-rejected', ok, '' if ok else show_facts(w))
+
+
+# ------------------------------------------------------------------ C12
+
+def nan_safe_bounds(S, is_x, lo, hi, lo_strict=False):
+    """facts on path S imply lo <= x <= hi (lo < x when lo_strict) and x is not NaN"""
+    # RangeInclusive::contains
+    for f in S:
+        if f[0] == 'bcall' and f[1].endswith('contains') and f[3] is True and len(f[2]) == 2 and is_x(f[2][1]):
+            r = f[2][0]
+            if is_call(r, 'RangeInclusive::<Idx>::new') and num(r[2][0]) is not None and num(r[2][1]) is not None:
+                if num(r[2][0]) >= lo and num(r[2][1]) <= hi and not (lo_strict and num(r[2][0]) <= lo):
+                    return True
+    low = up = False
+    for f in S:
+        if f[0] != 'cmp' or f[5] is not True or f[1] not in ('lt', 'le'):
+            continue
+        # c (<|<=) x
+        if is_x(f[3]) and num(f[2]) is not None:
+            c = num(f[2])
+            if c > lo or (c == lo and (f[1] == 'lt' or not lo_strict)):
+                low = True
+        if is_x(f[2]) and num(f[3]) is not None:
+            c = num(f[3])
+            if c <= hi:
+                up = True
+    return low and up
+
+
+def check_C12(ctx, rep):
+    prog, an = ctx.prog, ctx.an
+    rep.rule('C12.R1', 'NaN-rejection: for every probability/fraction (Machine.max_padding_frac, Machine.max_blocking_frac, Trans.1, the two '
+             'Framework::new fractions) every path to an Ok return crosses edges that imply "not NaN and within bounds": the TRUE edge of an '
+             'ordered comparison on each side, or the true edge of RangeInclusive::contains; false edges of < / > imply nothing')
+    rep.rule('C12.R2', 'Machine::new and from_str (and the v1 parser through Machine::new) return Ok(m) only after m.validate() succeeded on that '
+             'same value; Framework::new validates every machine before Ok; Machine values are constructed only in Machine::new and in '
+             'derived code')
+    rep.rule('C12.R3', 'coverage of the validate tree: Machine::validate validates every state with num_states = states.len(); State::validate '
+             'checks, for every transition element, target bound (< num_states or a pseudo-state), duplicates and probability, the per-event '
+             'sum after the element loop, and validates the action and both counters; Action::validate validates every Dist / Option<Dist> '
+             'field of every variant; Counter::validate its dist')
+    rep.rule('C12.R4', 'a machine with zero states or more than STATE_MAX states is rejected')
+    # ---- R1 machine fractions
+    mv = prog.fn(FW, 'Machine', 'validate')
+    ma = an.get(mv)
+    mp = an.paths(mv, history=True)
+    oks = [(b, k, v) for (b, k, v) in ret_defs(ma) if is_ok_ret(v)]
+    rep.count_floor('C12.R1', 'Ok returns of Machine::validate', len(oks), 1)
+    for fld_ in ('max_padding_frac', 'max_blocking_frac'):
+        for (b, k, v) in oks:
+            ok, w = all_paths(mp.at(b, k), lambda S: nan_safe_bounds(S, lambda e: is_field(e, fld_, 'Machine'), 0.0, 1.0))
+            rep.ob('C12.R1', mv, 'fraction:' + fld_, ok, 'Ok only through NaN-safe bounds of %s' % fld_ + ('' if ok else '; witness: ' + show_facts(w)))
+    nw = prog.fn(FW, 'Framework', 'new')
+    na = an.get(nw)
+    npf = an.paths(nw, history=True)
+    oksn = [(b, k, v) for (b, k, v) in ret_defs(na) if is_ok_ret(v)]
+    for (pi, nm) in ((2, 'max_padding_frac'), (3, 'max_blocking_frac')):
+        for (b, k, v) in oksn:
+            ok, w = all_paths(npf.at(b, k), lambda S: nan_safe_bounds(S, lambda e: e == ('param', pi) or e == ('refv', ('param', pi)) or unload(e) == ('local', pi), 0.0, 1.0))
+            rep.ob('C12.R1', nw, 'fraction:' + nm, ok, 'Framework::new Ok only through NaN-safe bounds of %s' % nm + ('' if ok else '; witness: ' + show_facts(w)))
+    rep.count_floor('C12.R1', 'Ok returns of Framework::new', len(oksn), 1)
+    # State::validate per element
+    sv = prog.fn(FW, 'State', 'validate')
+    sa = an.get(sv)
+    sp = an.paths(sv)  # state mode: per-iteration facts are invalidated when the iterator advances
+    loops = sa.cfg.loops()
+    # the element loop: the loop whose body reads Trans fields
+    elem_loops = []
+    for h, body in loops.items():
+        reads = False
+        for b in body:
+            for k, s in enumerate(sa.blocks[b]['s']):
+                if 'p' in s and s['rv']['k'] != 'setdiscr':
+                    e = sa.rvalue(s['rv'], (b, k))
+                    if contains(e, lambda x: isinstance(x, tuple) and x and x[0] == 'fld' and 'Trans' in x[2]):
+                        reads = True
+        if reads:
+            elem_loops.append(h)
+    inner = [h for h in elem_loops if not any(h2 != h and h2 in loops[h] for h2 in elem_loops)]
+    rep.count_exact('C12.R3', 'transition element loops in State::validate', len(inner), 1)
+
+    def is_t(e, idx):
+        e = unload(e)
+        return e[0] == 'fld' and e[3] == idx and 'Trans' in e[2]
+    end = prog.const_val('maybenot::constants::STATE_END')
+    sig = prog.const_val('maybenot::constants::STATE_SIGNAL')
+    for h in inner:
+        body = loops[h]
+        for (x, lab) in sa.cfg.pred[h]:
+            if x not in body:
+                continue
+            for S in sp.on_edge(x, h):
+                okp = nan_safe_bounds(S, lambda e: is_t(e, '1'), 0.0, 1.0, lo_strict=True)
+                rep.ob('C12.R1', sv, 'probability:Trans.1', okp, 'every element that passes has 0 < p <= 1 established NaN-safely' + ('' if okp else '; witness: ' + show_facts(S)))
+                # target bound
+                in_range = cmp_int_true(S, 'lt', lambda l: is_t(l, '0'), lambda r: r == ('param', 2))
+                is_end = cmp_int_true(S, 'eq', lambda l: is_t(l, '0'), lambda r: (r[0] == 'cdef' and r[1].endswith('STATE_END')) or is_const(r, int(end)))
+                is_sig = cmp_int_true(S, 'eq', lambda l: is_t(l, '0'), lambda r: (r[0] == 'cdef' and r[1].endswith('STATE_SIGNAL')) or is_const(r, int(sig)))
+                rep.ob('C12.R3', sv, 'target-bound', in_range or is_end or is_sig, 'target < num_states or END or SIGNAL on every passing path' + ('' if (in_range or is_end or is_sig) else '; witness: ' + show_facts(S)))
+
+        # the target is inserted into `seen` on every iteration
+        ins = [b for (b, f, a, t) in calls(sa) if b in body and callee_str(f).endswith('::insert') and 'HashSet' in callee_str(f)]
+        from .rules_limits import min_max_on_paths
+        lo, hi = min_max_on_paths(sa, h, set(ins), body, stop_at_header=True)
+        rep.ob('C12.R3', sv, 'target-recorded-every-iteration', lo >= 1, 'insert on every iteration path: min %s' % lo)
+        for (b, f, a, t) in calls(sa):
+            if b in ins:
+                rep.ob('C12.R3', sv, 'records-the-target', is_t(a[1], '0'), 'insert(%s)' % show(a[1]))
+                for S in sp.at_entry(b):
+                    dup = any(f2[0] == 'bcall' and f2[1].endswith('contains') and f2[3] is False and 'HashSet' in f2[1] and
+                              is_t(f2[2][1] if f2[2][1][0] != 'refv' else f2[2][1][1], '0') for f2 in S)
+                    rep.ob('C12.R3', sv, 'duplicate-target-rejected', dup, 'the target is recorded only after seen.contains(target) was false' + ('' if dup else '; witness: ' + show_facts(S)))
+    # per-event sum: at the outer loop back edge
+    outer = [h for h in loops if h not in inner and any(i in loops[h] for i in inner)]
+    rep.count_exact('C12.R3', 'per-event loops in State::validate', len(outer), 1)
+    sph = an.paths(sv, history=True)
+    for h in outer:
+        body = loops[h]
+        for (x, lab) in sa.cfg.pred[h]:
+            if x not in body:
+                continue
+            for S in sph.on_edge(x, h):
+                no_vec = any(f[0] == 'variant' and f[2] == 'None' and not (is_call(unload(f[1]), 'Iterator>::next') or is_call(unload(f[1]), 'Iterator::next')) for f in S)
+                if no_vec:
+                    continue
+
+                def is_sum(e):
+                    return contains(e, lambda y: isinstance(y, tuple) and y and y[0] == 'bin' and y[1] == 'Add' and is_t(y[3], '1')) or e[0] in ('phi', 'rec', 'load')
+                up = has_cmp(S, 'lt', lambda l: is_const(l, 1.0), is_sum, False) or has_cmp(S, 'le', is_sum, lambda r: is_const(r, 1.0), True)
+                rep.ob('C12.R3', sv, 'per-event-sum-bounded', up, 'sum <= 1 established for every event with a vector' + ('' if up else '; witness: ' + show_facts(S)))
+    # sum accumulation: sum += t.1 on every element iteration
+    # action / counters validated
+    oks_s = [(b, k, v) for (b, k, v) in ret_defs(sa) if is_ok_ret(v)]
+    rep.count_floor('C12.R3', 'Ok returns of State::validate', len(oks_s), 1)
+    for (b, k, v) in oks_s:
+        for S in sph.at(b, k):
+            for (what, pred, callee) in (('action', lambda e: is_field(e, 'action', 'State'), 'Action::validate'),
+                                         ('counter.0', lambda e: unload(e)[0] == 'fld' and unload(e)[3] == '0' and is_field(unload(e)[1], 'counter', 'State'), 'Counter::validate'),
+                                         ('counter.1', lambda e: unload(e)[0] == 'fld' and unload(e)[3] == '1' and is_field(unload(e)[1], 'counter', 'State'), 'Counter::validate')):
+                none = any(f[0] == 'variant' and f[2] == 'None' and pred(f[1]) for f in S)
+                val = continue_of(S, lambda y: is_call(y, callee) and contains(y, lambda z: isinstance(z, tuple) and z and z[0] == 'var' and z[2] == 'Some' and pred(z[1])))
+                rep.ob('C12.R3', sv, 'validates:' + what, none or val, '%s is None or %s succeeded' % (what, callee))
+    # Machine::validate -> State::validate for every state
+    mloops = ma.cfg.loops()
+    svc = [(b, f, a, t) for (b, f, a, t) in calls(ma) if callee_str(f).endswith('State::validate')]
+    rep.count_exact('C12.R3', 'State::validate call sites in Machine::validate', len(svc), 1)
+    for (b, f, a, t) in svc:
+        hs = [h for h, body in mloops.items() if b in body]
+        okl = len(hs) == 1
+        if okl:
+            body = mloops[hs[0]]
+            from .rules_limits import min_max_on_paths
+            lo, hi = min_max_on_paths(ma, hs[0], {b}, body, stop_at_header=True)
+            okl = lo >= 1
+            # iterates self.states
+            nx = [(b2, f2, a2, t2) for (b2, f2, a2, t2) in calls(ma) if b2 in body and (callee_str(f2).endswith('Iterator>::next') or callee_decl(f2).endswith('Iterator::next'))]
+            okl = okl and len(nx) == 1
+            if okl:
+                itl = nx[0][2][0]
+                itl = itl[1][1] if itl[0] == 'ref' and itl[1][0] == 'local' else None
+                dv = [ma.def_value(itl, bb, kk) for (bb, kk, part) in ma.defs().get(itl, [])] if itl is not None else []
+                okl = len(dv) == 1 and contains(dv[0], lambda x: isinstance(x, tuple) and x and x[0] == 'fld' and x[3] == 'states') and is_call(dv[0], 'into_iter') or \
+                    (len(dv) == 1 and contains(dv[0], lambda x: isinstance(x, tuple) and x and x[0] == 'fld' and x[3] == 'states'))
+        rep.ob('C12.R3', mv, 'every-state-validated', bool(okl), 'State::validate inside the loop over self.states, on every iteration')
+        ns = a[1]
+        okn = is_call(ns, '::len') and contains(ns, lambda x: isinstance(x, tuple) and x and x[0] == 'fld' and x[3] == 'states')
+        rep.ob('C12.R3', mv, 'num_states-is-states-len', okn, 'State::validate(_, %s)' % show(ns))
+        # Ok only after the loop is exhausted; an Err from State::validate returns Err
+        for (rb, rk, rv) in oks:
+            okx = all(any(f2[0] == 'variant' and f2[2] == 'None' and contains(f2[1], lambda y: is_call(y, 'Iterator>::next') or is_call(y, 'Iterator::next')) for f2 in S) for S in mp.at(rb, rk))
+            rep.ob('C12.R3', mv, 'Ok-only-after-all-states', okx, '')
+        # the result is propagated
+        okq = any(callee_decl(f2).endswith('Try::branch') and contains(strip_sites(a2[0]), lambda y: is_call(y, 'State::validate')) for (b2, f2, a2, t2) in calls(ma))
+        rep.ob('C12.R3', mv, 'state-error-propagated', okq, 'State::validate(..)? ')
+    # R4
+    for (rb, rk, rv) in oks:
+        def nonzero(S):
+            return has_cmp(S, 'eq', lambda l: is_call(l, '::len'), lambda r: is_const(r, 0), False) or cmp_int_true(S, 'lt', lambda l: is_const(l, 0), lambda r: is_call(r, '::len'))
+
+        def notmany(S):
+            return has_cmp(S, 'lt', lambda l: l[0] == 'cdef' and l[1].endswith('STATE_MAX'), lambda r: is_call(r, '::len'), False) or \
+                cmp_int_true(S, 'le', lambda l: is_call(l, '::len'), lambda r: r[0] == 'cdef' and r[1].endswith('STATE_MAX'))
+        ok1, w1 = all_paths(mp.at(rb, rk), nonzero)
+        ok2, w2 = all_paths(mp.at(rb, rk), notmany)
+        rep.ob('C12.R4', mv, 'zero-states-rejected', ok1, '')
+        rep.ob('C12.R4', mv, 'too-many-states-rejected', ok2, '')
+    # Action::validate: every Dist field
+    av = prog.fn(FW, 'Action', 'validate')
+    aa = an.get(av)
+    ap = an.paths(av, history=True)
+    avariants = prog.adt('maybenot::action::Action')['variants']
+    covered = set()
+    for (b, k, v) in ret_defs(aa):
+        if not is_ok_ret(v):
+            continue
+        for S in ap.at(b, k):
+            var = [f[2] for f in S if f[0] == 'variant' and f[2] in [x['name'] for x in avariants]]
+            nots = [x for f in S if f[0] == 'notvariant' for x in f[2]]
+            names = var[:1] if var else [x['name'] for x in avariants if x['name'] not in nots]
+            for n in names:
+                covered.add(n)
+                vd = prog.variant('maybenot::action::Action', n)
+                for fl in vd['fields']:
+                    if 'dist::Dist' not in fl['ty']:
+                        continue
+                    fname = fl['name']
+
+                    def reads_field(y):
+                        sf = src_field(y)
+                        return sf is not None and sf[1] == n and sf[2] == fname
+                    called = continue_of(S, lambda y: is_call(y, 'Dist::validate') and contains(y, lambda z: reads_field(z) or (isinstance(z, tuple) and z and z[0] == 'fld' and z[3] == fname and z[1][0] == 'var' and z[1][2] == n)))
+                    optional = fl['ty'].startswith('std::option::Option')
+                    none = optional and any(f[0] == 'variant' and f[2] == 'None' and contains(f[1], lambda z: isinstance(z, tuple) and z and z[0] == 'fld' and z[3] == fname) for f in S)
+                    rep.ob('C12.R3', av, 'dist-field:%s.%s' % (n, fname), called or none, 'Dist::validate succeeded on %s.%s%s' % (n, fname, ' (or it is None)' if optional else ''))
+    for x in avariants:
+        rep.ob('C12.R3', av, 'variant-covered:' + x['name'], x['name'] in covered, '')
+    cv = prog.fn(FW, 'Counter', 'validate')
+    ca = an.get(cv)
+    cp = an.paths(cv, history=True)
+    for (b, k, v) in ret_defs(ca):
+        if not is_ok_ret(v):
+            continue
+        for S in cp.at(b, k):
+            none = any(f[0] == 'variant' and f[2] == 'None' and is_field(f[1], 'dist', 'Counter') for f in S)
+            val = continue_of(S, lambda y: is_call(y, 'Dist::validate'))
+            rep.ob('C12.R3', cv, 'counter-dist-validated', none or val, '')
+    # ---- R2
+    check_validate_before_ok(ctx, rep, 'C12.R2')
+    # Dist::validate arms (shared with C13.R1)
+    tab = dist_ctor_table(ctx)
+    rep.ob('C12.R3', prog.fn(FW, 'Dist', 'validate'), 'dist-arms-agree-with-sampler', all(tab.values()) and len(tab) == len(prog.variants('maybenot::dist::DistType')) - 1,
+           'constructor table: %s' % {k.split('::')[-2]: v for k, v in tab.items()})
+    uf = uniform_validate_facts(ctx)
+    rep.ob('C12.R3', prog.fn(FW, 'Dist', 'validate'), 'uniform-parameters-rejected', all(uf.values()), '%s' % uf)
+    if ctx.tier == 'thorough':
+        thorough_rand_distr(ctx, rep)
+    rep.assumptions += ['f32 summation error at the bound is not decided', 'every CFG path is treated as feasible',
+                        'users of serde or of the public fields are re-validated by Framework::new']
+    return 'NaN-safe range tests, validate-before-Ok on every constructor path, exhaustive coverage of the validate tree'
+
+
+def check_validate_before_ok(ctx, rep, rid):
+    prog, an = ctx.prog, ctx.an
+    mnew = prog.fn(FW, 'Machine', 'new')
+    fstr = prog.fn(FW, 'Machine', 'from_str', 'FromStr')
+    for fn in (mnew, fstr):
+        fa = an.get(fn)
+        pf = an.paths(fn, history=True)
+        n = 0
+        for (b, k, v) in ret_defs(fa):
+            if not is_ok_ret(v):
+                continue
+            n += 1
+            m = dict(v[3]).get('0')
+            ms = strip_sites(m)
+
+            def validated(S):
+                for f in S:
+                    if f[0] == 'variant' and f[2] == 'Continue':
+                        for y in walk(f[1]):
+                            if is_call(y, 'Machine::validate'):
+                                a0 = y[2][0]
+                                a0 = a0[1] if a0[0] in ('refv',) else a0
+                                if strip_sites(a0) == ms or show(a0).lstrip('&*') == show(ms).lstrip('&*'):
+                                    return True
+                return False
+            ok, w = all_paths(pf.at(b, k), validated)
+            rep.ob(rid, fn, 'validate-before-Ok', ok and bool(pf.at(b, k)), 'Ok(%s) only after validate()? on the same value' % shape(m) + ('' if ok else '; witness: ' + show_facts(w)))
+        rep.count_floor(rid, 'Ok returns of ' + fn.short(), n, 1)
+    # v1 parser goes through Machine::new
+    p1 = prog.fn_opt(FW, None, 'parse_v1')
+    if p1 is not None:
+        pa = an.get(p1)
+        for (b, k, v) in ret_defs(pa):
+            okv = is_call(v, 'Machine::new') or (v[0] == 'agg' and v[2] == 'Err') or is_call(v, 'from_residual')
+            rep.ob(rid, p1, 'v1-returns-Machine::new-or-Err', okv, 'returns %s' % shape(v))
+        pm = prog.fn(FW, None, 'parse_v1_machine')
+        pma = an.get(pm)
+        for (b, k, v) in ret_defs(pma):
+            okv = is_call(v, 'parse_v1') or (v[0] == 'agg' and v[2] == 'Err') or is_call(v, 'from_residual') or contains(v, lambda y: is_call(y, 'from_residual'))
+            rep.ob(rid, pm, 'v1-machine-returns-parse_v1-or-Err', okv, 'returns %s' % shape(v))
+    # Framework::new validates every machine before Ok
+    nw = prog.fn(FW, 'Framework', 'new')
+    na = an.get(nw)
+    vcalls = [(b, f, a, t) for (b, f, a, t) in calls(na) if callee_str(f).endswith('Machine::validate')]
+    rep.count_exact(rid, 'Machine::validate call sites in Framework::new', len(vcalls), 1)
+    loops = na.cfg.loops()
+    for (b, f, a, t) in vcalls:
+        hs = [h for h, body in loops.items() if b in body]
+        okl = len(hs) == 1
+        if okl:
+            from .rules_limits import min_max_on_paths
+            lo, hi = min_max_on_paths(na, hs[0], {b}, loops[hs[0]], stop_at_header=True)
+            okl = lo >= 1
+            nx = [(b2, f2, a2, t2) for (b2, f2, a2, t2) in calls(na) if b2 in loops[hs[0]] and (callee_str(f2).endswith('Iterator>::next') or callee_decl(f2).endswith('Iterator::next'))]
+            okl = okl and len(nx) == 1 and contains(a[0], lambda y: is_call(y, 'Iterator>::next') or is_call(y, 'Iterator::next'))
+        rep.ob(rid, nw, 'every-machine-validated', bool(okl), 'validate() on each element of machines.as_ref()')
+        okq = any(callee_decl(f2).endswith('Try::branch') and contains(strip_sites(a2[0]), lambda y: is_call(y, 'Machine::validate')) for (b2, f2, a2, t2) in calls(na))
+        rep.ob(rid, nw, 'machine-error-propagated', okq, '')
+    # constructors of Machine
+    ctor = []
+    for fn in prog.crate_fns(FW):
+        if not fn.has_body or fn.derived or '::_::' in fn.key or '::_#' in fn.key or '::_:' in fn.key:
+            continue
+        fa = an.get(fn)
+        if aggregates(fa, 'machine::Machine'):
+            ctor.append(fn.short())
+    rep.ob(rid, '<inventory>', 'Machine-constructed-only-in-Machine::new', ctor == ['Machine::new'], 'hand-written constructors: %s' % ctor)
